@@ -108,9 +108,11 @@ Definition mon_slow_step (K : nat) (before : list im) (o : slow) (after : list i
     | [] => match after with [] => true | _ => false end                 (* capacity 0 *)
     | _ =>
         let m := min_max before in
-        if (m <? s_max o)%Z
-        then existsb (fun y => (snd y =? m)%Z && im_same after ((id, s_max o) :: im_remove y before)) before
-        else im_same after before
+        let replaced := existsb (fun y => (snd y =? m)%Z &&
+                                          im_same after ((id, s_max o) :: im_remove y before)) before in
+        if (m <? s_max o)%Z then replaced                       (* slower than a retained one: must get in *)
+        else if (m =? s_max o)%Z then replaced || im_same after before   (* a tie: either is a top-K *)
+        else im_same after before                               (* faster than all retained: left out *)
     end.
 
 Fixpoint mon_slow_steps (K : nat) (before : list im) (obs : list slow) (steps : list (list im)) : bool :=
